@@ -56,7 +56,7 @@ theorem C08_buildSteps_accepted (S : Spec) (c : Config) (hc : CfgOK S c) (pid : 
   safe_trace (buildProg c) AS.empty _ (safe_buildProg (pid := pid) hc) t ht
 
 /-- in particular the step list of a build that runs alone from any file system -/
-theorem C08_buildSteps_accepted' (S : Spec) (c : Config) (hc : CfgOK S c) (pid : Nat) (fs : FS) :
+theorem C08_buildSteps_accepted_run (S : Spec) (c : Config) (hc : CfgOK S c) (pid : Nat) (fs : FS) :
     accepts S (buildSteps S pid c fs) = true :=
   C08_buildSteps_accepted S c hc pid _ (run_isTrace (buildProg c) fs)
 
@@ -168,6 +168,6 @@ example : (run exSpec 1 (buildProg exCfg) exFS).1 = some true ∧
     Good exSpec (run exSpec 1 (buildProg exCfg) exFS).2.1 ∧ loadable exSpec exCfg (run exSpec 1 (buildProg exCfg) exFS).2.1 :=
   C08_recovery exSpec exSpec_coherent exCfg exCfg_ok rfl 1 exFS exFS_good exFS_fresh
 
-example : accepts exSpec (buildSteps exSpec 1 exCfg exFS) = true := C08_buildSteps_accepted' exSpec exCfg exCfg_ok 1 exFS
+example : accepts exSpec (buildSteps exSpec 1 exCfg exFS) = true := C08_buildSteps_accepted_run exSpec exCfg exCfg_ok 1 exFS
 
 end Occa.BuildFS.C08
